@@ -13,23 +13,27 @@ tvars == <<vars, l>>
 
 TraceInit == Init /\ l = 1
 
+\* the k-th datagram the call hands to the send callback is refused (0 / absent: none)
+K(a) == IF "k" \in DOMAIN a THEN a.k ELSE 0
 Act(r) ==
   LET a == r.act IN
-  CASE a.a = "connect"    -> Connect
-    [] a.a = "send"       -> SendWith(a.e, a.v, a.sz, a.id)
-    [] a.a = "connless"   -> ConnlessWith(a.e, a.sz, a.id)
-    [] a.a = "flush"      -> FlushApi(a.e)
-    [] a.a = "tick"       -> TickAny(a.e)
-    [] a.a = "disconnect" -> DisconnectWith(a.e, a.r)
+  CASE a.a = "connect"    -> ConnectWith(K(a)) /\ UNCHANGED cnt
+    [] a.a = "send"       -> SendWith(a.e, a.v, a.sz, a.id, K(a)) /\ UNCHANGED cnt
+    [] a.a = "connless"   -> ConnlessWith(a.e, a.sz, a.id, K(a)) /\ UNCHANGED cnt
+    [] a.a = "flush"      -> FlushWith(a.e, K(a)) /\ UNCHANGED cnt
+    [] a.a = "tick"       -> TickAny(a.e, K(a)) /\ UNCHANGED cnt
+    [] a.a = "disconnect" -> DisconnectWith(a.e, a.r, K(a)) /\ UNCHANGED cnt
+    [] a.a = "creset"     -> ResetOf(a.e) /\ UNCHANGED cnt
+    [] a.a = "accepttoken" -> AcceptTokenAt /\ UNCHANGED cnt
     [] a.a = "advance"    -> AdvanceBy(a.d) /\ UNCHANGED cnt
-    [] a.a = "deliver"    -> /\ a.i <= Len(net[a.from]) /\ DeliverAt(a.from, a.i, FALSE) /\ act' = a
+    [] a.a = "deliver"    -> /\ a.i <= Len(net[a.from]) /\ DeliverAt(a.from, a.i, FALSE, K(a)) /\ act' = a
                              /\ UNCHANGED <<sub, snv, scl, cnt>>
-    [] a.a = "dup"        -> /\ a.i <= Len(net[a.from]) /\ DeliverAt(a.from, a.i, TRUE) /\ act' = a
+    [] a.a = "dup"        -> /\ a.i <= Len(net[a.from]) /\ DeliverAt(a.from, a.i, TRUE, K(a)) /\ act' = a
                              /\ UNCHANGED <<sub, snv, scl, cnt>>
     [] a.a = "drop"       -> /\ a.i <= Len(net[a.from])
                              /\ net' = [net EXCEPT ![a.from] = RemoveAt(@, a.i)] /\ act' = a
-                             /\ out' = [res |-> "ok", evs |-> <<>>, outs |-> <<>>]
-                             /\ UNCHANGED <<ep, sub, snv, scl, del, ready, answered, cnt>>
+                             /\ out' = NoOut
+                             /\ UNCHANGED <<ep, sub, snv, scl, del, ready, answered, bnd, orph, cnt>>
     [] a.a = "forge"      -> ForgeWith(a.e, a.f)
 
 TraceNext ==
@@ -44,6 +48,7 @@ TraceNext ==
   /\ \A e \in E : net'[e] = Rec[l].st.net[e] /\ del'[e] = Rec[l].st.del[e]
   /\ \A e \in E : NeedsTick(ep'[e]) = Rec[l].st.nt[e]        \* Connection::needs_tick() after the call
   /\ ready' = Rec[l].st.ready
+  /\ \A e \in E : bnd'[e] = Rec[l].st.bnd[e]
   /\ answered' = Rec[l].st.answered
 
 TraceSpec == TraceInit /\ [][TraceNext]_tvars
